@@ -89,12 +89,13 @@ class Analysis:
         }
         self.reports: list = []
         self.checks: list = []
+        self.extra: list[str] = []  # private helpers of the anchored classes, discovered at their call sites
 
     def run(self):
         for rnd in range(3):
             self.reports, self.checks = [], []
             before = (repr(self.paramq), repr(self.fieldq), repr(self.retq))
-            for rel, qn, kind in ORDER:
+            for qn in [q for _r, q, _k in ORDER] + list(self.extra):
                 fi = self.fns[qn]
                 w = Walker(self, fi)
                 w.run(fi.node.body)
@@ -146,6 +147,10 @@ class Walker:
         self.cls = fi.cls.name if fi.cls else None
         self.name = fi.qualname
         self.env = dict(A.paramq.get(self.name, {})) if env is None else env
+        if env is None:
+            for a_ in fi.node.args.args + fi.node.args.kwonlyargs:
+                if a_.arg == "min_detection" and a_.arg not in self.env:
+                    self.env[a_.arg] = Q("pcount", "VIS")  # a number of photons on the user-visible modes
         self.lossless = False
         self.noheralds = False
         self.returns: list = []
@@ -376,6 +381,10 @@ class Walker:
             return Q("dist", self.q(args[0])[1], "IN")
         if last in ("SamplingResult",) and args:
             return TOP
+        if isinstance(f, ast.Attribute) and src(f.value) == "self" and self.cls and f"{self.cls}.{f.attr}" not in self.A.fns and self.fi.cls is not None and f.attr in self.fi.cls.methods and f.attr.startswith("_") and not f.attr.startswith("__"):
+            # a private helper extracted from an anchored method: analysed like one, parameters typed at the call site
+            self.A.fns[f"{self.cls}.{f.attr}"] = self.fi.cls.methods[f.attr]
+            self.A.extra.append(f"{self.cls}.{f.attr}")
         if isinstance(f, ast.Attribute) and src(f.value) == "self" and f"{self.cls}.{f.attr}" in self.A.fns:
             callee = f"{self.cls}.{f.attr}"
             params = [a.arg for a in self.A.fns[callee].node.args.args if a.arg != "self"]
@@ -394,6 +403,8 @@ class Walker:
                 self.result_args.append((e, qa, f"state appended to `{f.value.id}`"))
                 self.noheralds_at[id(e)] = self.noheralds
             return TOP
+        if last in ("choice", "choices", "permutation", "shuffle") and args:
+            return self.q(args[0])  # drawing from a collection of states gives states of the same space
         if fname == "enumerate" and args:
             return self.q(args[0])
         if fname in ("dict", "Counter") and args:
@@ -438,6 +449,8 @@ class Walker:
                 self.env[target.value.id] = Q("dist", kq[1], kq[2])
                 self.result_args.append((target, kq, f"key stored in `{target.value.id}`"))
                 self.noheralds_at[id(target)] = self.noheralds
+            elif isinstance(q, tuple) and len(q) == 3 and q[0] == "state":
+                self.env[target.value.id] = Q("states", q[1], q[2])  # array / list of states filled by position
             return
         if isinstance(target, ast.Name):
             self.env[target.id] = q
